@@ -1,5 +1,5 @@
-use super::field_utils::parse_party_identifier;
-use super::swift_utils::{parse_bic, parse_max_length};
+use super::field_utils::{parse_name_and_address, parse_party_identifier};
+use super::swift_utils::{parse_bic, parse_max_length, parse_swift_chars};
 use crate::errors::ParseError;
 use crate::traits::SwiftField;
 use serde::{Deserialize, Serialize};
@@ -110,16 +110,27 @@ impl SwiftField for Field53B {
         //   - Starts with '/' -> party_identifier
         //   - Looks like BIC (8-11 uppercase alphanumeric) -> party_identifier
         //   - Otherwise -> location
-        if lines.len() >= 2 {
+        // Every line that is present holds 1 to 34 (party identifier) / 35 (location) SWIFT characters;
+        // a third line is an error, not dropped.
+        if lines.len() > 2 {
+            return Err(ParseError::InvalidFormat {
+                message: "Field 53B has more lines than party identifier + location".to_string(),
+            });
+        }
+        if lines.iter().any(|line| line.is_empty()) {
+            return Err(ParseError::InvalidFormat {
+                message: "Field 53B contains an empty line".to_string(),
+            });
+        }
+        if lines.len() == 2 {
             // Two lines: first is party_identifier, second is location
-            if !lines[0].is_empty() {
-                party_identifier =
-                    Some(parse_max_length(lines[0], 34, "Field53B party_identifier")?);
-            }
-            if !lines[1].is_empty() {
-                location = Some(parse_max_length(lines[1], 35, "Field53B location")?);
-            }
-        } else if lines.len() == 1 && !lines[0].is_empty() {
+            let party_id = parse_max_length(lines[0], 34, "Field53B party_identifier")?;
+            parse_swift_chars(&party_id, "Field53B party_identifier")?;
+            party_identifier = Some(party_id);
+            let loc = parse_max_length(lines[1], 35, "Field53B location")?;
+            parse_swift_chars(&loc, "Field53B location")?;
+            location = Some(loc);
+        } else {
             let line = lines[0];
 
             // Determine if single line is party_identifier or location
@@ -130,9 +141,13 @@ impl SwiftField for Field53B {
                         .all(|c| c.is_ascii_uppercase() || c.is_ascii_digit()));
 
             if is_party_identifier {
-                party_identifier = Some(parse_max_length(line, 34, "Field53B party_identifier")?);
+                let party_id = parse_max_length(line, 34, "Field53B party_identifier")?;
+                parse_swift_chars(&party_id, "Field53B party_identifier")?;
+                party_identifier = Some(party_id);
             } else {
-                location = Some(parse_max_length(line, 35, "Field53B location")?);
+                let loc = parse_max_length(line, 35, "Field53B location")?;
+                parse_swift_chars(&loc, "Field53B location")?;
+                location = Some(loc);
             }
         }
 
@@ -178,12 +193,6 @@ impl SwiftField for Field53D {
     {
         let mut lines = input.split('\n').collect::<Vec<_>>();
 
-        if lines.is_empty() {
-            return Err(ParseError::InvalidFormat {
-                message: "Field 53D requires at least one line".to_string(),
-            });
-        }
-
         let mut party_identifier = None;
 
         // Check if first line is a party identifier
@@ -197,31 +206,20 @@ impl SwiftField for Field53D {
                     && first_line.chars().any(|c| c.is_ascii_digit()));
 
             if looks_like_party_id && !first_line.is_empty() && lines.len() > 1 {
-                // Entire first line is party identifier
+                // Entire first line is party identifier: 1 to 35 SWIFT characters (slash included)
+                if first_line.len() > 35 {
+                    return Err(ParseError::InvalidFormat {
+                        message: "Field 53D party identifier exceeds 35 characters".to_string(),
+                    });
+                }
+                parse_swift_chars(first_line, "Field 53D party identifier")?;
                 party_identifier = Some(first_line.to_string());
                 lines.remove(0);
             }
         }
 
-        // Parse remaining lines as name and address (max 4 lines, max 35 chars each)
-        let mut name_and_address = Vec::new();
-        for (i, line) in lines.iter().enumerate() {
-            if i >= 4 {
-                break;
-            }
-            if line.len() > 35 {
-                return Err(ParseError::InvalidFormat {
-                    message: format!("Field 53D line {} exceeds 35 characters", i + 1),
-                });
-            }
-            name_and_address.push(line.to_string());
-        }
-
-        if name_and_address.is_empty() {
-            return Err(ParseError::InvalidFormat {
-                message: "Field 53D must contain name and address information".to_string(),
-            });
-        }
+        // 1 to 4 name and address lines of 1 to 35 characters; a fifth line is an error, not dropped
+        let name_and_address = parse_name_and_address(&lines, 0, "Field53D")?;
 
         Ok(Field53D {
             party_identifier,
